@@ -5,7 +5,7 @@
 # (VERIF_REPO; /repo is not touched) and records /verif/seeded/<PROP>-<n>/ with the next free number n.
 set -u
 P=$1; K=$2; TIER=${3:-quick}; shift; shift; shift || true; EXTRA="$*"
-S=${SEEDROOT:-/tmp/seed2}; SRC=$S/$P/out/$K; WT=$S/$P/wt; V=/verif
+S=${SEEDROOT:-/tmp/seed2}; SRC=$S/$P/out/$K; WT=$S/$P/${SEEDWTNAME:-wt}; V=/verif
 export GOFLAGS= GOPROXY=off GOSUMDB=off GOTOOLCHAIN=local
 [ -f $SRC/patch.diff ] || { echo "no patch in $SRC"; exit 2; }
 DEMO=$(ls $SRC/*_test.go 2>/dev/null | head -1); [ -n "$DEMO" ] || { echo "no demo"; exit 2; }
